@@ -16,6 +16,7 @@ class Obligation:
         self.defs = defs; self.thms = thms; self.theorem_names = theorem_names
         self.describe = describe
         self.mon_expr = mon_expr; self.m0_expr = m0_expr
+        self.corr = None     # (mstep_expr, m0_expr, norm_expr) for correspondence obligations
 
 
 def rlock(name, target, *, St, mstep, enc, dec, wf, dec_enc, wf_step, m0, wf_m0,
@@ -101,3 +102,18 @@ End {name}_T.
 """
     return Obligation(name, "R-monitor", target, defs, thms, [f"{name}_T.tie"], describe,
                       mon_expr=f"{name}.mon", m0_expr=f"{name}.m0")
+
+
+def corr(name, target, *, mstep, m0, norm="(fun o => o)", describe=""):
+    """C obligation (correspondence, not a proof): the typed hand model `mstep`/`m0` is run inside Coq
+    on the same input traces as Amaranth's simulator of the real module; outputs (after `norm`) must agree
+    in every cycle.  The model packs its outputs exactly like the target's declared output ports."""
+    o = Obligation(name, "C-correspondence", target, "", "", [], describe)
+    o.corr = (mstep, m0, norm)
+    return o
+
+
+def cmon(name, target, *, mon, m0, describe=""):
+    """Runtime-oracle obligation: a monitor (N -> N -> N -> option (N * bool)) evaluated over simulator
+    traces of the real module (for configurations too large for an R obligation)."""
+    return Obligation(name, "C-monitor", target, "", "", [], describe, mon_expr=mon, m0_expr=m0)
